@@ -115,4 +115,9 @@ impl WriteBackend for HotColdBackend {
 #[allow(missing_docs, unused_imports, dead_code, clippy::all, clippy::pedantic, clippy::nursery)]
 pub mod verif_hooks {
     use super::*;
+
+    /// `HotColdBackend::new` (the type lives in a crate-private module).
+    pub fn new_hotcold<BE: WriteBackend>(be: BE, hot_be: BE) -> Arc<dyn WriteBackend> {
+        Arc::new(HotColdBackend::new(be, hot_be))
+    }
 }
